@@ -116,7 +116,7 @@ theorem lsh_nhoodRow_perm (le : Expect → Expect → Bool) (b b' : Bandit α) (
   have hperm : (b'.hist.filter (collides b.planes q)).Perm (b.hist.filter (collides b.planes q)) := hp.perm.filter _
   have hfit : lp.fit ((b'.selectIdx q ds ks).1.filterMap fun j => b'.hist[j]?) (some q.length) =
       lp.fit ((b.selectIdx q ds ks).1.filterMap fun j => b.hist[j]?) (some q.length) :=
-    fit_perm lp _ _ _ hg.wf hg.notLinear hg.noBinz ((e2.trans hperm).trans e1.symm)
+    fit_perm_all lp _ _ _ hg.wf hg.noBinz ((e2.trans hperm).trans e1.symm) (nfFor_some lp _ _ _)
   have hlen : (b'.selectIdx q ds ks).1.length = (b.selectIdx q ds ks).1.length := by rw [l1, l2, hperm.length_eq]
   have htie : (b'.selectIdx q ds ks).2 = (b.selectIdx q ds ks).2 := by
     simp only [Bandit.selectIdx, hnp, hnp']
@@ -229,7 +229,7 @@ theorem lsh_row_order (le : Expect → Expect → Bool) (b : Bandit α) (d t : N
   exact lsh_impPredict_perm le _ _ k1 d t pr k2 k3 isPredict mm qs oq gq
 
 /-- the hypotheses are satisfiable: a UCB1 policy over two arms is a context-free policy in a well-formed state -/
-example : CFGood (LP.init (.ucb 1) [1, 2] : LP Nat) :=
-  ⟨⟨rfl, by decide⟩, rfl, rfl⟩
+example : CFGood (LP.init (.ucb 1) [1, 2] : LP Nat) := ⟨⟨rfl, by decide⟩, rfl⟩
+example : CFGood (LP.init (.linUCB 1 1) [1, 2] : LP Nat) := ⟨⟨rfl, by decide⟩, rfl⟩
 
 end Mab
